@@ -1,10 +1,13 @@
 #!/bin/bash
-# Runs every registered check's quick command sequentially; prints one line per check.
+# Runs every registered check (or the ids given after the tier) sequentially; prints one line per check.
+# usage: tools/runall.sh quick|thorough [ID ...]
 cd /verif
 tier=${1:-quick}
-for id in $(python3 -c "import json; print(' '.join(c['property_id'] for c in json.load(open('MANIFEST.json'))['checks']))"); do
+ids="${@:2}"
+[ -z "$ids" ] && ids=$(python3 -c "import json; print(' '.join(c['property_id'] for c in json.load(open('MANIFEST.json'))['checks']))")
+for id in $ids; do
   t0=$(date +%s)
-  timeout -k 5 3000 ./vcheck.sh $id $tier > .work/$id.$tier.out 2>&1; rc=$?
+  timeout -k 5 4000 ./vcheck.sh $id $tier > .work/$id.$tier.out 2>&1; rc=$?
   t1=$(date +%s)
   echo "$id rc=$rc $((t1-t0))s $(grep -c '^KNOWN-FINDING' .work/$id.$tier.out) known | $(tail -1 .work/$id.$tier.out | cut -c1-110)"
 done
